@@ -410,3 +410,123 @@ def c04(tier, seed):
         out.add_vh(run_vh(["derive-replay", "--lines", lp, "--seed", seed, "--vals", 8 if thorough else 4,
                            "--thrmaps", 5 if thorough else 4, "--clients", 16 if thorough else 3], timeout=3000), only={"C04"})
     return out
+
+
+def _wire_table(out, cfg, tag):
+    res = run_tlc("MC_WireFaults", cfg, workers=8, timeout=2400, tags=("WIRE",), tag=tag, heap="6g")
+    out.add_tlc(res, "MC_WireFaults/" + cfg)
+    if res.ok and not res.lines.get("WIRE"):
+        raise ToolError("MC_WireFaults emitted nothing")
+    wd = workdir(tag + "-tbl")
+    lp = os.path.join(wd, cfg + ".lines.ndjson")
+    write_ndjson(lp, res.lines.get("WIRE", []))
+    return lp
+
+
+@check("C08")
+def c08(tier, seed):
+    out = Outcome("C08", tier, seed, "fault_enumeration")
+    thorough = tier == "thorough"
+    out.rule = ("(A) TLC enumerates seed encodings of 2/3 shapes x every single fault (every truncation point, each of 12 boundary "
+                "values at each of 6 length headers, non-canonical / high-limb elements, threshold extremes, trailing bytes, bit "
+                "flips) and, thorough, every pair of faults from different classes, with the verdict of the independent parser "
+                "Wire.tla; each string is fed to Message::from_bytes and both Share::from_bytes; (C) honest values of the C01 "
+                "generators, all their prefixes, byte/bit faults, trailing bytes, splices and random strings go through the "
+                "real decoders and TLC re-parses every one (Trace_Wire): accept/reject and re-encoding must agree; "
+                "distinct = distinct (decoder, input) with a fault or a rejection")
+    out.assumptions = ["length headers >= 2^31 are one class (Huge) in the TLA+ parser; a panic of a decoder is 'not accepted' "
+                       "here and reported under C09"]
+    lp = _wire_table(out, "WireFaults_t.cfg" if thorough else "WireFaults_q.cfg", "C08-faults")
+    out.add_vh(run_vh(["wire-replay", "--lines", lp, "--prop", "C08"], timeout=3000), only={"C08"})
+    _sharded_trace(out, "C08", "Trace_Wire", "Trace_Wire.cfg",
+                   lambda k, tr: ["wire-record", "--out", tr, "--seed", seed + k, "--n", 6 if thorough else 3,
+                                  "--tier", tier, "--decoders", "sharks,adss,message"],
+                   6 if thorough else 2, "decoder call log")
+    return out
+
+
+@check("C09")
+def c09(tier, seed):
+    out = Outcome("C09", tier, seed, "fault_enumeration")
+    thorough = tier == "thorough"
+    out.rule = ("every string of the MC_WireFaults enumeration and, from honest encodings, every truncation length and every "
+                "length/threshold header set to 18 boundary values (0 .. 2^32-1) is fed under catch_unwind to the decoders "
+                "(sharks, adss, sta_rs share, message, public key, proof) and load_bytes; structurally valid degenerate shares "
+                "(no y-coordinates, thresholds 0, 1, 2^32-1) to Sharks::recover / adss::recover / share_recover; undecodable "
+                "points, missing proofs and corrupted loaded public keys to Server::eval / Client::verify; 10 malformed input "
+                "classes to star_wasm::group_shares; the oracle is: no panic, and the function's own failure value; "
+                "distinct = distinct (entry point, input class instance)")
+    out.assumptions = ["aborts other than panics (e.g. allocation failure) are not observable by catch_unwind; the harness builds "
+                       "the crates with overflow checks and debug assertions on"]
+    lp = _wire_table(out, "WireFaults_t.cfg" if thorough else "WireFaults_q.cfg", "C09-faults")
+    out.add_vh(run_vh(["wire-replay", "--lines", lp, "--prop", "C09"], timeout=3000), only={"C09"})
+    for k in range(4 if thorough else 1):
+        out.add_vh(run_vh(["crash-sweep", "--seed", seed + k, "--tier", tier], timeout=3000), only={"C09"})
+    return out
+
+
+def _oprf_cases(out, tag):
+    res = run_tlc("MC_Oprf", "Oprf.cfg", workers=1, timeout=600, tags=("DLEQ",), tag=tag)
+    out.add_tlc(res, "MC_Oprf/Oprf.cfg")
+    if res.ok and len(res.lines.get("DLEQ", [])) < 20:
+        raise ToolError("MC_Oprf emitted too few cases")
+    wd = workdir(tag + "-tbl")
+    lp = os.path.join(wd, "dleq.ndjson")
+    write_ndjson(lp, res.lines.get("DLEQ", []))
+    return lp
+
+
+@check("C12")
+def c12(tier, seed):
+    out = Outcome("C12", tier, seed, "model_checking")
+    thorough = tier == "thorough"
+    out.rule = ("TLC checks Oblivious / Separated / BlindFresh of the symbolic group algebra (blinding scalars cancel) over 2 "
+                "servers x 3 tags x 3 inputs x 3 blindings; on the real code, for 3 independently keyed servers x their tags x "
+                "inputs (empty, 1 B, block-sized, 5 kB, random) x R OS blindings, plain and verifiable: unblind(eval(blind(x))) = "
+                "eval(H(x)), finalised outputs equal within and distinct across (server, tag, input), blinded requests pairwise "
+                "distinct and != H(x); distinct = (server, tag, input, request)")
+    out.assumptions = [IDEAL, "H(x) is obtained as unblind(blind(x)) through the public API"]
+    _oprf_cases(out, "C12-mc")
+    out.add_vh(run_vh(["oprf-check", "--seed", seed, "--blindings", 64 if thorough else 8,
+                       "--inputs", 12 if thorough else 6], timeout=3000), only={"C12"})
+    return out
+
+
+@check("C13")
+def c13(tier, seed):
+    out = Outcome("C13", tier, seed, "fault_enumeration")
+    thorough = tier == "thorough"
+    out.rule = ("TLC enumerates every applicable (component in {pk, input, output, tag, c, s}) x (class in {same, restored, other "
+                "honest value, neighbour, identity/zero, other server, other tag}) substitution into an honest verifiable "
+                "evaluation and predicts accept iff nothing differs (ProofSound, ProofComplete); each case is realised in several "
+                "concrete variants on the bincode / 32-byte forms (+1, bit flips, zero, values from other requests, swapped key "
+                "entries) for several base requests and judged by Client::verify; commitments s*G + c*PK recomputed with "
+                "curve25519-dalek are pairwise distinct over N proofs incl. repeated identical requests; "
+                "distinct = (base request, component, class, variant)")
+    out.assumptions = ["DLEQ soundness is the ideal-model statement 'accepts exactly the issued statement'", IDEAL]
+    lp = _oprf_cases(out, "C13-mc")
+    out.add_vh(run_vh(["dleq-replay", "--lines", lp, "--seed", seed, "--bases", 10 if thorough else 3], timeout=3000), only={"C13"})
+    out.add_vh(run_vh(["nonce-check", "--n", 1024 if thorough else 64], timeout=3000), only={"C13"})
+    return out
+
+
+@check("C15")
+def c15(tier, seed):
+    out = Outcome("C15", tier, seed, "fault_enumeration")
+    thorough = tier == "thorough"
+    out.rule = ("public keys over tag-set sizes 0..256 and proofs/points/evaluations of real requests are serialised and restored "
+                "(bincode / serde_json) and must equal the originals and verify interchangeably (the 'restored' cases of the "
+                "MC_Oprf enumeration); every prefix, byte fault, trailing-byte extension and splice of the bincode forms, "
+                "lengths cap-1 / cap / cap+1 for both caps, inflated and huge map counts, repeated tags and non-canonical "
+                "scalars are decoded by the real loaders and re-parsed by TLC (Wire.tla DecPk / DecProof, Trace_Wire); "
+                "malformed JSON must be an error; distinct = distinct (decoder, input)")
+    out.assumptions = ["bincode ignores trailing bytes and keeps the last of repeated map keys (modelled); compressed points are "
+                       "not validated at load time (by design of curve25519-dalek)"]
+    lp = _oprf_cases(out, "C15-mc")
+    out.add_vh(run_vh(["dleq-replay", "--lines", lp, "--seed", seed, "--bases", 6 if thorough else 3, "--prop", "C15"]), only={"C15"})
+    out.add_vh(run_vh(["serde-check", "--seed", seed]), only={"C15"})
+    _sharded_trace(out, "C15", "Trace_Wire", "Trace_Wire.cfg",
+                   lambda k, tr: ["wire-record", "--out", tr, "--seed", seed + k, "--n", 2, "--tier", tier,
+                                  "--decoders", "pk,proof"],
+                   3 if thorough else 1, "loader call log")
+    return out
